@@ -387,10 +387,17 @@ func defectKey(p *Pair, c *Case, v *Verdict) string {
 		}
 	}
 	if kind == "advance" {
-		for _, r := range c.Item() {
-			if r == 0x2007 {
-				return KeyFigureSpace
+		// every glyph whose advance differs stands for a U+2007
+		only := true
+		for i := range v.Go {
+			if v.Go[i].XAdv != v.C[i].XAdv || v.Go[i].YAdv != v.C[i].YAdv {
+				if cl := v.Go[i].Cluster; cl < 0 || cl >= len(c.Text) || c.Text[cl] != 0x2007 {
+					only = false
+				}
 			}
+		}
+		if only {
+			return KeyFigureSpace
 		}
 	}
 	if fi.GoGPOSDropped {
